@@ -12,7 +12,7 @@ CONSTANTS
   PbPols = {1}
   PbNeg = 0
   PbPos = 2
-  PbBound = 4
+  PbBound = 3
   PbOps = {">=", ">"}
   MaxMgrs = 2
   MaxPosts = 2
